@@ -29,4 +29,11 @@ def jobs(tier):
         out.append(e2job("C13", "c13", "h_answers_do_not_depend_on_history", tmo, tier,
                          {"VF_K": k, "VF_L": Lfold}, "[k=%d,len<=%d]" % (k, Lfold)))
     out.append(e2job("C13", "c13", "h_none_value_is_empty", tmo, tier))
+    for k in range(7):
+        for case in (0, 1):
+            # (case folding calls str.lower() on the symbolic value: several times the paths)
+            out.append(e2job("C13", "c13", "h_brackets_are_literal", tmo if case else max(tmo, 500), tier, {"VF_K": k, "VF_CASE": case},
+                             "[k=%d,is_case=%d]" % (k, case)))
+    from vf.props.C11 import namemap_jobs
+    out += namemap_jobs("C13")
     return out
